@@ -6,6 +6,18 @@ CLAIMED = {
  'C01': dict(text="TLC checks on the specification alone that ObsCore!Derive is independent of how a sum is split under the property's side condition (all layout triples, 2 replicas x 3 configurations; 254k states in the thorough tier) and that up-weighting preserves the ensemble mean. Every evaluation of a random expression tree by real pyerrors (operators step by step; derived_observable with autograd / num_grad / man_grad; array mode; complex operands; all layout classes) is validated by DeriveTrace.tla: TLC differentiates the tree symbolically (Expr.tla), applies Derive in exact rational arithmetic and compares value, every fluctuation, configuration list, replica mean and covariance gradient at 1e-9.",
              note="Trusted: TLC, the Java rational kernel (BigInteger), java.lang.Math for elementary functions, the projection harness/pe_project.py. Operand values are kept inside the domain of f with a margin. num_grad compared at 1e-6.",
              technique="TLA+ spec (ObsCore/Expr) model-checked by TLC + trace validation of real executions", ref="6 C01"),
+ 'C02': dict(text="Gamma.tla is a transcription of Wolff's estimator (with the Schaefer et al. tail) in exact rational arithmetic. TLC checks on it, for every configuration list in 1..U (>=5 entries) and every data word over {-1,0,1}, tau_int >= 1/2, non-negative squares, window range, the naive S=0 limit and the zero-variance short-cut. Every gamma_method call of real pyerrors on generated observables (1-3 ensembles x 1-3 replicas, contiguous/strided/gapped lists on a common grid, white/AR(1)/constant/alternating/integer data, parameters as argument/dictionary/global, fft on/off, covariance inputs) is validated by GammaTrace.tla: window exactly, tau_int, rho(t), cumulative tau, and the squares of dvalue, ddvalue, dtau_int, drho at 1e-9.",
+             note="Trusted: TLC, Java rational kernel, double-precision evaluation of the windowing function g(W) (cases with |g| < 1e-9 are skipped, counted as undecided), projection. Domain: replicas on a common grid (others skipped).",
+             technique="TLA+ transcription of the Gamma method model-checked by TLC + trace validation of real gamma_method calls", ref="6 C02"),
+ 'C03': dict(text="Session.tla models the process state (global defaults, per-ensemble dictionaries, pool, per-object analysis cache); TLC explores it exhaustively (98k states quick) for parameter precedence, 'an analysis touches only its own cache', 'pool only grows', 'new data depend on operand data only', reweighted inheritance; MC_Gamma proves on the spec invariance under i->a*i+b and covariance under scaling. TLC-simulated behaviours of Session are replayed action by action into real pyerrors and, together with random histories, validated by SessionTrace.tla, which keeps its own copy of the parameter slots and pool and recomputes every analysis with Gamma!Analyse and every arithmetic step with ObsCore!Derive. Metamorphic pairs (relabelled, renamed, shifted, scaled, fft on/off, repeated, after analysing another object) are compared inside TLC.",
+             note="Trusted: as C02; the replayer's mapping of abstract parameter values to numbers. A history whose analysis hits a windowing tie is skipped for that step only.",
+             technique="TLA+ state machine (Session) model-checked by TLC; TLC-generated behaviours replayed into the code; trace validation", ref="6 C03"),
+ 'C04': dict(text="ObsCore!WellFormed is the structural invariant. TLC shows on the spec that Construct accepts exactly the well-formed requests of a grammar and that Construct / Derive / Reweight / Correlate / Merge results are WellFormed on every small layout (MC_Align, Gen_Construct). All 3168 TLC-enumerated constructor requests are replayed into pe.Obs (must raise / must equal Construct(request)). Random requests of every malformed class, covariance observables (valid, '|' in name, asymmetric, indefinite), the full closure table {Obs,CObs} x {Obs,CObs,int,float,complex,ndarray,numpy scalars} x {+,-,*,/} x both orders, elementary functions, and the results of fits, roots, json/dobs/pickle/jackknife round trips, linalg, reweight/correlate/merge are judged by OpsTrace.tla with WellFormed / Closed.",
+             note="Trusted: TLC, kernel, projection (which reports kinds of values and names as flags instead of coercing). Closure is claimed for + - * / and the elementary functions.",
+             technique="TLA+ invariant WellFormed model-checked on spec operations; TLC-enumerated requests replayed; trace validation of returned objects", ref="6 C04"),
+ 'C05': dict(text="ObsCore!Reweight/Correlate/Merge are written on (chain, configuration number) -> sample maps. MC_Align: TLC enumerates all weight/observable layout pairs (2 replicas, subsets of 1..6 with >= 5 entries; 4033 states) and checks on the spec: defined iff alignable, WellFormed results, support of the result, constant weight = identity, self-weight = <o^2>/<o>, merge order-independent, flag set and inherited. Real reweight / correlate / merge_obs calls (weights on 1-3 replicas; prefix/suffix/stride/random subsets; replica subsets; both normalisations; lists, Corr, method form; unalignable variants that must raise) are validated by OpsTrace.tla in value, every fluctuation, replica mean, configuration list and flag at 1e-9.",
+             note="Trusted: TLC, kernel, projection. Weights are positive with mean 1.",
+             technique="TLA+ spec of reweight/correlate/merge model-checked by TLC + trace validation", ref="6 C05"),
 }
 PENDING = {}
 props = [json.loads(l) for l in open(os.path.join(V, 'properties.jsonl'))]
